@@ -258,7 +258,10 @@ def check_handout_paths(ctx, winner):
                 why.append("root fully handed out: depth 1 begins with budget floor(h_max/1)")
             else:
                 ok = ok and len(opens) == 1 and opens[0][1] == parent + ".open"
+                qb, qn = query("self.budget == 1"), query("num == 1")
                 used_up = query("self.budget == 1 or num == 1")
+                if used_up is None:
+                    used_up = True if (qb is True or qn is True) else (False if (qb is False and qn is False) else None)
                 if used_up is True:
                     ok = ok and F.get("self.curr_depth") == "self.curr_depth + 1" and F.get("self.budget") in FLOOR
                     why.append("last child: cell marked opened, budget - 1, depth advances with a fresh budget")
